@@ -88,9 +88,13 @@ pub fn gen_app(g: &mut Gen, depth: usize, params_used: usize, fangs_ok: bool) ->
     let mut items: Vec<Item> = Vec::new();
     let mut patterns: Vec<String> = Vec::new();
     // a mounted application may consist of fangs (and further mounts) only: its fangs still govern everything under its prefix
-    let n_routes = if depth == 0 { 1 + t::draw(10) as usize } else if t::chance(1, 6) { 0 } else { 1 + t::draw(4) as usize };
+    // (wave 16) one application in eight is wide: a dozen routes over a dozen first segments, so that a node of the tree gets
+    // eight and more static children (some of them chains without a handler in the middle) — where a router may switch
+    // to another lookup than for narrow nodes
+    let wide = depth == 0 && t::chance(1, 8);
+    let n_routes = if wide { 14 + t::draw(12) as usize } else if depth == 0 { 1 + t::draw(10) as usize } else if t::chance(1, 6) { 0 } else { 1 + t::draw(4) as usize };
     // a small vocabulary per application makes siblings and shared prefixes likely
-    let vocab: Vec<&str> = (0..2 + t::draw(4)).map(|_| t::pick(&STATICS)).collect();
+    let vocab: Vec<&str> = if wide { let mut v: Vec<&str> = STATICS.to_vec(); t::shuffle(&mut v); v.truncate(12 + t::draw(10) as usize); v } else { (0..2 + t::draw(4)).map(|_| t::pick(&STATICS)).collect() };
     // mounts first decide which first segments are reserved
     let mut reserved_first: Vec<String> = Vec::new();
     let mut param_mount = false;
